@@ -126,6 +126,11 @@ def representable(fmt, v):
             return True                               # missing
         if np.isinf(v):
             return fmt == "sqlite"                    # xlsx has no infinity; SQLite REAL has
+        if fmt == "excel":
+            try:                                      # xlsxwriter stores numbers as '%.16G' text: beyond double range after rounding
+                return not np.isinf(float("%.16G" % v))
+            except OverflowError:
+                return False
         return True
     if isinstance(v, str):
         if fmt == "excel":
@@ -150,7 +155,8 @@ def compare_elements(a, b, fmt):
             continue
         cols = [col for col in va.columns if str(va[col].dtype) in NUMPY_DTYPES and isinstance(col, str)]
         skipped += len(va.columns) - len(cols)
-        c.frame(va, vb, k, only_columns=cols, cell_filter=lambda col, x, _f=fmt: representable(_f, x))
+        # the name of an index is not element data (from_dict_of_dfs deliberately resets it to the default of the table)
+        c.frame(va, vb, k, only_columns=cols, cell_filter=lambda col, x, _f=fmt: representable(_f, x), index_name=False)
     return c
 
 
@@ -190,7 +196,7 @@ def compare_results(a, b, fmt):
             if k not in b:
                 c.add("results", k, "present", "absent")
                 continue
-            c.frame(a[k], b[k], k, dtypes=False)
+            c.frame(a[k], b[k], k, dtypes=False, index_name=fmt not in ("excel", "sqlite"))
     for d in c.diffs:
         d["clause"] = "results"
     return c
